@@ -50,10 +50,12 @@ def cases(rng, tier):
                  'monotonicity_threshold', 'burst_fraction_threshold']:
         for v in [-eps, -5e-324, 0.0, -0.0, eps, 0.5, 1.0 - eps, 1.0, math.nextafter(1.0, 2.0), 1.0 + eps, 2.0, -1.0]:
             out.append({'kind': 'range', 'param': name, 'v': v, 'lo': 0.0, 'hi': 1.0})
-    for n in [-2, -1, 0, 1, 3]:
-        out.append({'kind': 'min_n', 'n': n, 'via': 'cycles'})
-        out.append({'kind': 'min_n', 'n': n, 'via': 'amp'})
-        out.append({'kind': 'min_n', 'n': n, 'via': 'filter'})
+    for n in [-2, -1, -0.5, 0, 1, 3]:
+        for quiet in (False, True):          # quiet: no cycle passes the thresholds (shortcut paths must still validate)
+            out.append({'kind': 'min_n', 'n': n, 'via': 'cycles', 'quiet': quiet})
+            out.append({'kind': 'min_n', 'n': n, 'via': 'amp', 'quiet': quiet})
+            out.append({'kind': 'min_n', 'n': n, 'via': 'filter', 'quiet': quiet})
+            out.append({'kind': 'min_n', 'n': n, 'via': 'compute_features', 'quiet': quiet})
     for lo, hi in [(1, 2), (2, 1), (-0.1, 1), (1, 1), (0.5, 1.5), (0, 2), (1.0 + eps, 1.0), (-eps, 0.5), (3, 2.999)]:
         out.append({'kind': 'ampthr', 'lo': float(lo), 'hi': float(hi)})
     for fs in [-1.0, -eps, 0.0, 100.0]:
@@ -150,11 +152,21 @@ def run_impl(c):
         df = pd.DataFrame({'amp_fraction': [.5, .6, .7, .8], 'amp_consistency': [np.nan, .6, .7, np.nan],
                            'period_consistency': [np.nan, .6, .7, np.nan], 'monotonicity': [.9, .9, .9, .9],
                            'burst_fraction': [1., 1., 0., 1.]})
+        if c.get('quiet'):
+            df['monotonicity'] = 0.1
+            df['burst_fraction'] = 0.0
         if c['via'] == 'cycles':
             return _attempt(lambda: detect_bursts_cycles(df, min_n_cycles=c['n']))
         if c['via'] == 'amp':
             return _attempt(lambda: detect_bursts_amp(df, min_n_cycles=c['n']))
-        return _attempt(lambda: check_min_burst_cycles(np.array([True, False, True]), min_n_cycles=c['n']))
+        if c['via'] == 'compute_features':
+            from bycycle.features import compute_features
+            thr = {'min_n_cycles': c['n']}
+            if c.get('quiet'):
+                thr['monotonicity_threshold'] = 1.0
+            return _attempt(lambda: compute_features(sig, 100, (3, 8), threshold_kwargs=thr))
+        arr = np.array([False, False, False]) if c.get('quiet') else np.array([True, False, True])
+        return _attempt(lambda: check_min_burst_cycles(arr, min_n_cycles=c['n']))
     if k == 'ampthr':
         from bycycle.features import compute_features
         return _attempt(lambda: compute_features(sig, 100, (3, 8), burst_method='amp', threshold_kwargs={},
